@@ -129,7 +129,7 @@ def c19b(tree, ob):
         ob.violate(UTIL, Q, 'own_flags = ' + src(own), 'request flags are not read from the subject bundle', s)
     if pm('status_array.setfieldval(STATUS_FIELD[{}], $i)'.format(act), s) is None:
         ob.violate(UTIL, Q, src(s), 'the assertion set is not the one belonging to the action', s)
-    info = fv.value_at(s.args[1], s, depth=1)
+    info = s.args[1] if isinstance(s.args[1], ast.Call) else fv.value_at(s.args[1], s, depth=1, keep=('status_ts', ts))
     ok = isinstance(info, ast.Call) and call_name(info) == 'StatusInfo'
     at = kwarg(info, 'at') if ok else None
     stt = kwarg(info, 'status') if ok else None
